@@ -784,4 +784,31 @@ theorem infoOk_of_B (X : SchemaX) (h : infoOkB X = true) : InfoOk X := by
   have := allBelowL_spec _ hk h
   simpa using this
 
+
+mutual
+theorem dfltStateN_fresh (S : Schema) : ∀ (n : DNode), isFreshN n = true → dfltStateN S n = false
+  | .term s f m v, h => by
+    have := isFreshN_flags h
+    simp only [DNode.flags] at this
+    subst this
+    rfl
+  | .inner s f m ks, h => by
+    have hf := isFreshN_flags h
+    have hk := isFreshN_kids h
+    simp only [DNode.flags] at hf
+    simp only [DNode.kids] at hk
+    subst hf
+    unfold dfltStateN
+    rw [dfltStateL_fresh S ks hk]
+    rfl
+theorem dfltStateL_fresh (S : Schema) : ∀ (ns : List DNode), isFreshL ns = true → dfltStateL S ns = false
+  | [], _ => rfl
+  | n :: ns, h => by
+    unfold isFreshL at h
+    simp only [Bool.and_eq_true] at h
+    unfold dfltStateL
+    rw [dfltStateN_fresh S n h.1, dfltStateL_fresh S ns h.2]
+    rfl
+end
+
 end LyModel.Valid
